@@ -114,8 +114,10 @@ def classify(case, lm, k, missing, full):
     shadow interpreter makes the line disappear from the dependence set)."""
     from props import _c09_core as core
 
-    modes = [("subscript-store", {"nosetidx": True}), ("container-method-mutation", {"noappend": True}),
-             ("attribute-base", {"nobase": True})]
+    # order matters when a line vanishes under several switches (e.g. `l.append(6); l[0] = len(l)`): the
+    # recorded limitations first, so that `subscript-store` only names lines nothing else explains
+    modes = [("container-method-mutation", {"noappend": True}), ("attribute-base", {"nobase": True}),
+             ("subscript-store", {"nosetidx": True})]
     deps = {name: core.shadow_run(case, lm, **kw)["deps"][k] for name, kw in modes}
     kinds = {}
     for ln in sorted(missing):
@@ -333,7 +335,8 @@ def run(ctx: vlib.Ctx):
     cases = [c["case"] for c in corpus]
     profiles = [None, None, None, {"branch"}, set(), {"globals"}, {"branch", "globals"},
                 {"branch", "calls"}, {"attrs", "branch"}, {"lists", "branch"}, {"branch", "calls", "early", "andor"},
-                {"branch", "loops"}, {"branch", "loops", "lists", "calls"}]
+                {"branch", "loops"}, {"branch", "loops", "lists", "calls"},
+                {"lists", "nested"}, {"lists", "nested", "calls"}, {"lists", "nested", "calls", "branch"}]
     for _ in range(n_cases):
         cases.append(_tolist(core.gen_case(ctx.rng, ctx.rng.choice(profiles))))
     scratch = ctx.mkscratch()
